@@ -26,6 +26,15 @@ func genProg(t *rapid.T) Prog {
 	g.tickProg = g.chance(50)
 	g.tswProg = g.chance(2)
 	g.mvalProg = g.chance(2)
+	if g.chance(24) && g.on(kFuncVarFile) {
+		// a package of two files: package variables of function type may be declared in the second one. The compilers
+		// take the files in the order of their names; the variables of the second file are initialised first unless the
+		// order of initialisation is free to differ from the order of the source (finding global-init-order)
+		g.file2 = "fvars.go"
+		if g.chance(40) && g.on(kGlobalOrder) {
+			g.file2 = "zvars.go"
+		}
+	}
 	if g.chance(1) && g.on(kBigOffsets) {
 		g.bigFirstFunc()
 	}
@@ -34,9 +43,14 @@ func genProg(t *rapid.T) Prog {
 	// helpers usable by global initialisers come first
 	if g.chance(60) {
 		g.genFunc("safe")
-		if g.chance(20) {
+		if g.chance(20) || g.file2 != "" && g.chance(50) {
 			g.pr.Funcs[len(g.pr.Funcs)-1].AsVar = true
 			g.mark("func-literal-var")
+			if g.file2 != "" && g.chance(70) {
+				g.pr.Funcs[len(g.pr.Funcs)-1].File2 = true
+				g.file2Used = true
+				g.mark("func-literal-var-other-file")
+			}
 		}
 	}
 	g.genGlobals()
@@ -77,6 +91,11 @@ func genProg(t *rapid.T) Prog {
 	}
 	if g.tick2Fn {
 		g.pr.Funcs = append(g.pr.Funcs, tick2Func())
+	}
+	g.pr.Funcs = append(g.pr.Funcs, g.extraFuncs()...)
+	if g.file2Used {
+		g.pr.File2Name = g.file2
+		g.mark("two-file-package")
 	}
 	if g.chance(3) {
 		// An exported function with type-only or blank parameters is valid Go; the compiler documents that it refuses
@@ -125,7 +144,7 @@ func (g *gen) bigFirstFunc() {
 // genLib: in some programs, one or two exported functions func Lk(p0 int) int { return e } of a package of their own that
 // the program imports (when some statement uses them, see stLibFunc). They see their parameter only.
 func (g *gen) genLib() {
-	if !g.chance(10) {
+	if !g.chance(14) {
 		return
 	}
 	for i, k := 0, g.rng(1, 2, "nlib"); i < k; i++ {
@@ -138,6 +157,32 @@ func (g *gen) genLib() {
 		g.libFuncs = append(g.libFuncs, Func{Name: fmt.Sprintf("L%d", i), Params: []Field{{"p0", "int"}}, Results: []Field{{"", "int"}},
 			Body: []*Node{{K: "return", A: []*Node{body.n}}}})
 	}
+	if !g.on(kImportedFuncVar) {
+		return
+	}
+	// exported variables of function type: var V0 = L0, var V1 = func(p0 int) int { return e }, var W0 = func() int { return c },
+	// one of them possibly declared without a value and set by an init() function of the package
+	ip, ir := []Field{{"p0", "int"}}, []Field{{"", "int"}}
+	var vars []Func
+	if g.chance(70) {
+		vars = append(vars, Func{Name: "V0", AsVar: true, Alias: g.libFuncs[g.n(len(g.libFuncs), "lva")].Name, Params: ip, Results: ir})
+	}
+	if g.chance(50) {
+		g.f = &fctx{sig: &fsig{safe: true, pure: true}, noPanic: true, noGlobals: true, pure: true, inLambda: true, budget: 30, mult: 1}
+		g.push()
+		g.add(&vinfo{name: "p0", typ: "int", lo: -storeB, hi: storeB, param: true})
+		body := fitStore(g.genInt(2))
+		g.pop()
+		g.f = nil
+		vars = append(vars, Func{Name: "V1", AsVar: true, Params: ip, Results: ir, Body: []*Node{{K: "return", A: []*Node{body.n}}}})
+	}
+	if g.chance(60) || len(vars) == 0 {
+		vars = append(vars, Func{Name: "W0", AsVar: true, Results: ir, Body: []*Node{{K: "return", A: []*Node{ilit(smallInts[g.n(len(smallInts), "lvc")])}}}})
+	}
+	if g.chance(25) {
+		vars[g.n(len(vars), "lvi")].ViaInit = true
+	}
+	g.libFuncs = append(g.libFuncs, vars...)
 }
 
 func (g *gen) genStructs() {
